@@ -53,8 +53,12 @@ def gen_case(rng):
     else:  # unique_items
         b = rng.choice([True, True, False])
         k = rng.random()
-        xs = [rng.choice([1, 1.0, True, 2, "a", "b", Decimal(1), 0, False, None, "1"]) for _ in range(rng.randint(0, 5))]
-        v = rng.choice([list, tuple])(xs) if k < 0.85 else (set(xs) if k < 0.93 else gen.scalar(rng))
+        pool = [1, 1.0, True, 2, "a", "b", Decimal(1), 0, False, None, "1"]
+        if rng.random() < 0.3:
+            # unhashable items (compared by a list scan, never through a set), equal ones included
+            pool = pool + [[1], [1], [], [], [2], {"a": 1}, {"a": 1}, {}, [1.0], [True]]
+        xs = [rng.choice(pool) for _ in range(rng.randint(0, 5))]
+        v = rng.choice([list, tuple])(xs) if k < 0.85 else (set(x for x in xs if not isinstance(x, (list, dict))) if k < 0.93 else gen.scalar(rng))
     return dict(name=name, lax=lax, value=v, bound=b)
 
 
